@@ -832,6 +832,88 @@ def gen_tsig(full):
                     yield mk_case(mk_score(bars, spans))
 
 
+def gen_gaps(full):
+    """bars without a note line (no head of a written note: only rests, or only the continuation of a note tied over
+    from the bar before) next to time-signature changes.
+
+    layout A: [pickup] | m1 note bar | k empty m1 bars | m2 bar (signature m2 written, also when m2 == m1) | m2 full
+              bar, for ALL 64 ordered meter pairs, k in 1..2 (3 in the thorough tier), with/without a one-unit pickup,
+              every late_pattern of the first bar after the gap, the gap empty / filled by a tie chain that starts in
+              the bar before and ends with the gap / by a chain that ends with the first bar after the gap; without
+              pickup also with a key change at the bar after the gap
+    layout B: m0 | m1 (change) | k empty m1 bars | m2 (change) | m2, all m0 != m1 != m2 over 4 meters (8 thorough):
+              the signature before the gap is neither the first nor the last one
+    layout C: m1 | gap | m2 (change) | gap in m2 | m3 (change) | m3 over 4 meters: two gaps, k = 1 each
+    """
+    def chain(s, cuts, e):
+        segs = split_at(s, e, cuts)
+        return [note("L%d" % i, a, b, "A", None, 2, 2, 2, tie=("L%d" % (i + 1)) if i + 1 < len(segs) else None)
+                for i, (a, b) in enumerate(segs)]
+
+    for m1 in METERS:
+        for m2 in METERS:
+            L1, L2 = blen(m1), blen(m2)
+            for k in ((1, 2, 3) if full else (1, 2)):
+                for pk in (False, True):
+                    for A2 in late_patterns(m2):
+                        for fill in ("empty", "tied", "tied-into"):
+                            for ks2 in ((None, (2, "minor")) if (not pk and fill == "empty") else (None,)):
+                                bars = []
+                                spans = []
+                                t = 0
+                                if pk:
+                                    u = UNIT[m1]
+                                    bars.append((m1, m1, (-1, "major"), u))
+                                    spans.append((0, u))
+                                    t = u
+                                    bars.append((m1, None, None))
+                                else:
+                                    bars.append((m1, m1, (-1, "major")))
+                                b1 = t
+                                spans.append((t, t + L1))
+                                t += L1
+                                cuts = [t]
+                                for _ in range(k):
+                                    bars.append((m1, None, None))
+                                    t += L1
+                                    cuts.append(t)
+                                bars.append((m2, m2, ks2))
+                                spans += shift(A2, t)
+                                t += L2
+                                bars.append((m2, None, None))
+                                spans.append((t, t + L2))
+                                sc = mk_score(bars, spans)
+                                if fill == "tied":
+                                    sc["notes"] += chain(b1 + UNIT[m1], cuts, cuts[-1])
+                                elif fill == "tied-into":
+                                    sc["notes"] += chain(b1 + UNIT[m1], cuts, cuts[-1] + L2)
+                                yield mk_case(sc)
+    ms = METERS if full else [(4, 4), (6, 8), (3, 8), (2, 2)]
+    for m0 in ms:
+        for m1 in ms:
+            for m2 in ms:
+                if m0 == m1 or m1 == m2:
+                    continue
+                for k in (1, 2):
+                    for A2 in late_patterns(m2)[:2]:
+                        bars = [(m0, m0, None), (m1, m1, None)] + [(m1, None, None)] * k + [(m2, m2, None), (m2, None, None)]
+                        t1 = blen(m0)
+                        t2 = t1 + (k + 1) * blen(m1)
+                        spans = [(0, t1), (t1, t1 + blen(m1))] + shift(A2, t2) + [(t2 + blen(m2), t2 + 2 * blen(m2))]
+                        yield mk_case(mk_score(bars, spans))
+    ms = [(4, 4), (6, 8), (3, 8), (2, 2)]
+    for m1 in ms:
+        for m2 in ms:
+            for m3 in ms:
+                if m1 == m2 or m2 == m3:
+                    continue
+                for A in late_patterns(m3)[:2]:
+                    L1, L2, L3 = blen(m1), blen(m2), blen(m3)
+                    bars = [(m1, m1, None), (m1, None, None), (m2, m2, None), (m2, None, None), (m3, m3, None), (m3, None, None)]
+                    spans = [(0, L1), (2 * L1, 2 * L1 + L2)] + shift(A, 2 * L1 + 2 * L2) + [(2 * L1 + 2 * L2 + L3, 2 * L1 + 2 * L2 + 2 * L3)]
+                    yield mk_case(mk_score(bars, spans))
+
+
 KEYS_ALL = [(f, mo) for mo in ("major", "minor", None) for f in range(-7, 8)]
 KEYS_PAIR = [(f, mo) for mo in ("major", "minor") for f in (-7, -3, -1, 0, 2, 7)]
 
@@ -1248,6 +1330,12 @@ def spaces(tier, seed):
     sp.append(Space("tsig", lambda: gen_tsig(thorough), True,
                     "all 64 ordered meter pairs as a change at bar 2, with/without pickup, 3-5 contents of the changed "
                     "bar; double changes over %d meters" % (8 if thorough else 4)))
+    sp.append(Space("gaps", lambda: gen_gaps(thorough), True,
+                    "bars without a note line next to signature changes: note bar | k=1..%d empty bars | bar with a (new or "
+                    "repeated) time signature | full bar, all 64 ordered meter pairs, with/without one-unit pickup, 3-5 contents "
+                    "of the bar after the gap, gap empty / covered by a tie chain ending with the gap / ending one bar later, "
+                    "optional key change after the gap; gap between two changes (m0|m1|gap|m2, %d meters, k=1..2); two gaps "
+                    "with a change after each (4 meters)" % ((3, 8) if thorough else (2, 4))))
     sp.append(Space("ksig", lambda: gen_ksig(thorough), True,
                     "45 keys at the start (2 layouts); 132 ordered key pairs x {4/4,6/8} x pickup x {note-led, rest-led} "
                     "bar; key+time changes in same/different bars over 5 meters; late/redundant/returning keys; "
